@@ -353,6 +353,18 @@ func unshard(v Val) Val {
 	return VL{VT("d"), ents, VN(form)}
 }
 
+func itoa(i int) string {
+	if i == 0 {
+		return "0"
+	}
+	s := ""
+	for i > 0 {
+		s = string(rune('0'+i%10)) + s
+		i /= 10
+	}
+	return s
+}
+
 func rootN(t Val) Val { return VL{VT("n"), t} }
 
 var optFile = VL{VN(0), VN(0)}
@@ -427,6 +439,28 @@ func init() {
 				opts := VL{vbool(r.Chance(25)), VN(0)}
 				c17Emit(c, "directed:"+s.name, s.fs, od, "", s.roots, opts, s.pre)
 			}
+		}
+		// link budgets: the kernel follows at most 40 links per resolution, EvalSymlinks at most 255
+		chain := func(n int, at []string, final string) VL {
+			out := VL{}
+			for i := 0; i < n; i++ {
+				t := final
+				if i+1 < n {
+					t = "k" + itoa(i+1)
+				}
+				out = append(out, fsLink(t, append(append([]string{}, at...), "k"+itoa(i))...))
+			}
+			return out
+		}
+		for _, n := range []int{39, 40, 41} {
+			fs := with(chain(n, c17OutAt(), c17Outside+"/dir")...)
+			roots := VL{rootN(dirV(0, de("k0", dirV(0)), de("after", f1("A"))))}
+			c17Emit(c, "directed:kernel-link-budget", fs, c17Out, "", roots, optFile, 1)
+		}
+		for _, n := range []int{254, 255, 256} {
+			fs := with(chain(n, []string{"q", "p", "w"}, "out")...)
+			roots := VL{rootN(dirV(0, de("a", f1("A"))))}
+			c17Emit(c, "directed:evalsymlinks-link-budget", fs, "k0", "", roots, optFile, 0)
 		}
 		// --path on directed trees
 		ptree := VL{rootN(dirV(0, de("a", f1("A")), de("d", dirV(0, de("b", f1("B")), de("x", linkV(tgt)), de("x", f1("PWNED")))), de("d", f1("second"))))}
